@@ -314,6 +314,30 @@ def alias_store(ctx: Ctx) -> List[Ob]:
                 if isinstance(t, ast.Attribute) and t.attr in ("_children", "_meta"):
                     aliases = env.fields(f, value)
                     is_param = isinstance(value, ast.Name) and value.id in f.top.param_names() and value.id != f.self_name
+                    if is_param:
+                        # (the parameter was rebound to a fresh copy - `meta = dict(meta)` - on every path that reaches the store)
+                        from .util import reaching_values as _rv
+
+                        vals_ = _rv(ctx, f, n, value)
+                        if vals_ and not (len(vals_) == 1 and vals_[0] is value) and all(isinstance(v_, (ast.Dict, ast.List, ast.DictComp, ast.ListComp)) or (isinstance(v_, ast.Call) and (
+                                norm(v_.func) in ("dict", "list", "copy.copy", "copy.deepcopy", "copy", "deepcopy") or (isinstance(v_.func, ast.Attribute) and v_.func.attr == "copy")))
+                                or (isinstance(v_, ast.Constant) and v_.value is None) for v_ in vals_):
+                            is_param = False
+                        if is_param and (vals_ is None or (len(vals_) == 1 and vals_[0] is value)):
+                            # `if p is not None: p = dict(p) or None` ... `if p is not None: x._meta = p`: the untouched parameter
+                            # reaches the store only when it is None, i.e. not at all
+                            from .util import path_conds as _pc
+
+                            def _fresh(v_):
+                                if isinstance(v_, ast.BoolOp):
+                                    return all(_fresh(x_) for x_ in v_.values)
+                                return isinstance(v_, (ast.Dict, ast.DictComp)) or (isinstance(v_, ast.Constant) and v_.value is None) or (isinstance(v_, ast.Call) and (
+                                    norm(v_.func) in ("dict", "copy.copy", "copy.deepcopy") or (isinstance(v_.func, ast.Attribute) and v_.func.attr == "copy")))
+
+                            bs_ = [b_ for b_ in env.scope(f).bindings.get(value.id, []) if b_.kind == "val" and b_.expr is not None]
+                            guarded = lambda st_: any((not pol_) and norm(e_) == f"{value.id} is None" for e_, pol_ in _pc(ctx, f, st_))  # noqa: E731
+                            if bs_ and all(_fresh(b_.expr) for b_ in bs_) and guarded(n) and all(guarded(ctx.model.parent_of(b_.expr)) for b_ in bs_):
+                                is_param = False
                     in_init = f.name == "__init__"
                     ok = not aliases and not (is_param and not in_init)
                     props = ["C07", "C04"] if t.attr == "_meta" else ["C07"]
